@@ -212,6 +212,13 @@ fn run_once_here(c: &SimCase, r: &RunSpec) -> RunOut {
     let res = catch_unwind(AssertUnwindSafe(|| {
         let network = Network::new(delay, r.pps);
         let mut sq = parse_trace(&text, network);
+        if r.name == "det" {
+            // the repeat run goes through Clone (clone_from into a queue parsed from another trace, then
+            // clone): a caller that parses once and simulates copies must see the same simulation
+            let mut other = parse_trace("0,s\n5,r\n", network);
+            other.clone_from(&sq);
+            sq = other.clone();
+        }
         let first = sq.get_first_time();
         let out = if r.adv {
             let mut args = SimulatorArgs::new(network, r.mtl, r.on);
